@@ -1120,6 +1120,9 @@ def _replay_relaxation(kind, case, clause, model, seed):
 
 
 UNITS = [DynRelaxation(), LogRelaxation(), DynInit(), LogInit(), Alpha2Factor(), CageRelative()]
+# callee contracts of other properties used at call sites: their units are re-verified with this check
+from contracts.common import callee_units as _callee_units   # noqa: E402
+UNITS = UNITS + _callee_units([('C02', None)], UNITS)
 
 MANIFEST = {
     "text": 'Dynamics.relaxation and LogDynamics.relaxation (real ASTs, re-read every run), symbolic frame number T >= 2 and particle number N >= 1, d in {2,3}, for coordinates xu / x-only (PBC removal through remove_pbc with the cell of the origin frame, any mask with a periodic axis), with/without cage-relative neighbour lists (list of the origin frame), with/without a per-frame boolean selection, slow (8 combinations) and fast (2 combinations) per dimension: at an arbitrary row k, t = time[k]; isf, Qt, msd are the averages over ALL origins n0 = 0..T-2-k of the mean of cos(q_i D) over selected particles and axes (q_i = qconst/diameter_i), of the fraction with |D|^2 < a2_i (> for fast) and of the mean |D|^2; X4_Qt = N_sel(<Q^2>-<Q>^2); alpha2 = c_d <M4>/<M2>^2 - 1 with c_3 = 3/5, c_2 = 1/2; the log variant returns the same pair quantities with the first frame as only origin and X4_Qt = 0. The nested (end frame, lag) loops are summarised by inductively checked scatter-add summaries; two generic lemmas proved by induction on the frame number (number of origins = T-1-k; sum over end frames = sum over origins) turn the accumulated sums into the origin averages of the statement. Also under contract: alpha2factor (3/5, 1/2, ValueError otherwise), cage_relative (row i = displacement minus the mean over its cn_i listed neighbours, symbolic N and list width), both __init__ without neighbour file (xu preferred, PBC flag iff only wrapped coordinates, ValueError for unequal frame numbers / no periodic axis, time[k] = (ts[k+1]-ts[0]) dt, diameters = map of the first frame types, a2_cuts = (a diameter)^2), and the lemma wrapped = unwrapped on the contract of remove_pbc (lattice-shifted displacement within half a cell is restored, every mask, d = 2, 3). Inputs are never written.',
